@@ -331,6 +331,13 @@ def execute(spec):
         return {"skip": "table could not be built as specified"}
     vec_before = [_uids(it.wires(list(v))) for v in vecs]
     case = {"nrows": n, "cols": before, "by": model_by, "rev": model_rev, "na_last": bool(spec["na_last"])}
+
+    def _argsnap(a):
+        # the caller's own argument objects (a list of names / vectors / flags is an input too)
+        if isinstance(a, (list, tuple)):
+            return (type(a).__name__, [x if isinstance(x, (str, bool)) or x is None else ("obj", id(x)) for x in a])
+        return ("scalar", a if isinstance(a, (str, bool)) or a is None else ("obj", id(a)))
+    args_before = (_argsnap(by), _argsnap(rev))
     try:
         r = t.sort_by(by, reverse=rev, na_last=spec["na_last"])
         if not isinstance(r, Table):
@@ -350,6 +357,8 @@ def execute(spec):
     vec_after = [_uids(it.wires(list(v))) for v in vecs]
     if vec_after != vec_before:
         w["py_fail"] = "an external key vector was modified by sort_by"
+    if (_argsnap(by), _argsnap(rev)) != args_before:
+        w["py_fail"] = "the caller's `by` / `reverse` argument object was modified by sort_by (the input is not left as it was)"
     return w
 
 
